@@ -62,8 +62,12 @@ class InstanceManager(Generic[M]):
         # prevent it from running its deinitialization code:
         self._instance._rc = 1
 
-        self._cx.close()
-        self._instance = None
+        try:
+            self._cx.close()
+        finally:
+            # Even if the machine's teardown raised, its contexts are unwound
+            # now - it must not be handed out as "alive" any more.
+            self._instance = None
 
     @contextlib.contextmanager
     def request(self, exclusive: bool = False, keep_alive: bool = False) -> Iterator[M]:
@@ -454,10 +458,18 @@ class Context(typing.ContextManager):
             # to tear down all the machines which are still alive but have no
             # users.
             if keep_alive_orig is False and keep_alive is True:
+                error = None
                 for cls in reversed(self._teardown_order):
                     inst = self._instances[cls]
                     if inst.is_alive() and not inst.has_users():
-                        inst.teardown()
+                        try:
+                            inst.teardown()
+                        except BaseException as e:
+                            # Keep going: the machines this one was built
+                            # from must still be torn down.
+                            error = e
+                if error is not None:
+                    raise error
 
     def is_active(self) -> bool:
         """
@@ -495,6 +507,7 @@ class Context(typing.ContextManager):
     def __exit__(self, *args: Any) -> None:
         try:
             if self._open_contexts == 1:
+                error = None
                 for cls in reversed(self._teardown_order):
                     inst = self._instances[cls]
                     if inst.is_alive():
@@ -502,11 +515,18 @@ class Context(typing.ContextManager):
                             # If we kept instances alive, now is a good time to
                             # finally tear them down; there won't be any users
                             # after this point...
-                            inst.teardown()
+                            try:
+                                inst.teardown()
+                            except BaseException as e:
+                                # Keep going: the machines this one was built
+                                # from must still be torn down.
+                                error = e
                         else:
                             tbot.log.warning(
                                 f"Found dangling {cls!r} instance in this context"
                             )
+                if error is not None:
+                    raise error
         finally:
             if self._open_contexts == 1:
                 for cls, inst in self._instances.items():
